@@ -34,5 +34,5 @@ mkdir -p $W/out
 echo "== $ID $NAME ($TIER) dir=$W"
 echo "-- repo tests with patch (only TestRichText may fail):"; grep -E "FAIL" $W/tests_after.txt | head -5
 [ -n "$DEMO" ] && { echo "-- demo before patch:"; tail -2 $W/demo_before.txt; echo "-- demo after patch:"; tail -2 $W/demo_after.txt; }
-echo "-- check:"; grep -E "^VIOLATION|signature=|^violation-class|^KNOWN|exit=|MACHINERY" $W/check.txt | cut -c1-260 | head -14
+echo "-- check:"; grep -E "^VIOLATION|signature=|^violation-class|^KNOWN|exit=|MACHINERY" $W/check.txt | cut -c1-260 | sort -r | head -16
 rm -rf $W/repo $W/h $W/vcheck
